@@ -19,11 +19,27 @@ import (
 
 const modPath = "x.io/test"
 
-var pkgs = []string{"p", "q", "r", "s"}
+var pkgs = []string{"o", "p", "q", "r", "s"}
 
 func module() pipe.Tree {
 	return pipe.Tree{
 		"go.mod": pipe.GoMod(modPath, "1.24"),
+		"o/o.go": `// Package o sorts first; the scripted stateful generators record its types but render nothing for it.
+package o
+
+// A has the same name as p.A and q.A.
+type A struct {
+	// V doc
+	V int
+}
+
+// Sub too.
+type Sub struct {
+	W []int
+}
+
+type Z int
+`,
 		"p/p.go": `// Package p docs
 package p
 
@@ -120,7 +136,7 @@ func spec(dir string, entry []string, all bool, order []string) pipe.Spec {
 			reals = append(reals, g)
 			continue
 		}
-		gs := pipe.GenScript{Name: g, Stateful: true, Default: pipe.Action{Render: "var V_$T_$G = \"$P\"\n", Imports: []string{"x.io/dep/$T", "y.io/other/dep"}}}
+		gs := pipe.GenScript{Name: g, Stateful: true, QuietPkgs: []string{modPath + "/o"}, Default: pipe.Action{Render: "var V_$T_$G = \"$P\"\n", Imports: []string{"x.io/dep/$T", "y.io/other/dep"}}}
 		if g == "g2" {
 			// a generator that registers deferred callbacks and imports per type
 			gs.Default.Defers = []pipe.Action{{Render: "var D_$T_$G = 1\n"}}
@@ -215,6 +231,9 @@ func checkCase(c *core.Ctx, cs Case) {
 		if len(ref) == 0 {
 			c.Internal("vacuous reference: package %s alone generated nothing", p)
 		}
+		if p == "o" && len(ref) > 4 {
+			c.Internal("package o was meant to be quiet for the scripted generators but has %d files", len(ref))
+		}
 		for f, want := range ref {
 			if g, ok := got[f]; !ok {
 				c.Fail("", cs, "%s is generated when %s is processed alone but missing in this run (processed %v)", f, p, ps)
@@ -303,7 +322,7 @@ func replay(c *core.Ctx, raw json.RawMessage) {
 func init() {
 	core.Register(&core.Prop{
 		ID: "C05", Level: "model_checking", Run: run, Replay: replay,
-		Rule:        "every non-empty ordered selection of entrypoints out of 4 packages (r imports p, s imports q and r) x All on/off x generator orders, each on a pristine copy of the module; generators: stateful scripted ones without New (g1, g2 with Defer), with a custom New (n1), registered with pre-allocated reference state and no New (p1), plus runtimedoc/deepcopy/defaulter; oracle: bytes of every <base>.<gen>.go of every processed package == bytes of the run selecting that package alone; non-trivial = more than one package processed; states = distinct (processed set, All)",
+		Rule:        "every non-empty ordered selection of entrypoints out of 5 packages (r imports p, s imports q and r; o sorts first and makes the scripted stateful generators record state without rendering anything) x All on/off x generator orders, each on a pristine copy of the module; generators: stateful scripted ones without New (g1, g2 with Defer), with a custom New (n1), registered with pre-allocated reference state and no New (p1), plus runtimedoc/deepcopy/defaulter; oracle: bytes of every <base>.<gen>.go of every processed package == bytes of the run selecting that package alone; non-trivial = more than one package processed; states = distinct (processed set, All)",
 		Assumptions: []string{"each run starts from the same pristine module tree (no outputs of earlier runs)"},
 	})
 }
